@@ -126,7 +126,6 @@ func runSignal(rc *kernel.RunCtx, k *kernel.Kernel) {
 	timeout := time.Duration(tp.Range(1, 20)) * time.Second
 	var calls []int
 	svcs := make([]*svc, nSvc)
-	allNil := true
 	for i := range svcs {
 		s := &svc{k: k, idx: i, calls: &calls, timeout: timeout}
 		switch c := tp.Choose(10); {
@@ -144,7 +143,6 @@ func runSignal(rc *kernel.RunCtx, k *kernel.Kernel) {
 			s.outcome = outPanicNil
 		}
 		if s.outcome != outNil {
-			allNil = false
 			rc.Stats.Fault([]string{"", "service-error", "service-panic", "service-panic", "service-panic-runtime-error", "service-panic-nil"}[s.outcome])
 		}
 		s.slow = tp.Choose(3)
@@ -203,10 +201,49 @@ func runSignal(rc *kernel.RunCtx, k *kernel.Kernel) {
 	}
 	k.Logf("signal: services=", kernel.Itoa(nSvc), " script=", kernel.Itoa(len(script)), " precancelled=", btoa(preCancelled))
 
-	// Scheduler-side state.
-	shutdownEnqueued := false
-	returned := false
+	// A second Handle call on the same handler, after more services have been
+	// added, must again shut down everything registered in reverse order.
+	nRounds := 1
+	var extra []*svc
+	if tp.Bool(1, 3) {
+		nRounds = 2
+		rc.Stats.Probe("second-handle-call")
+		for n := tp.Choose(3); n > 0; n-- {
+			s := &svc{k: k, idx: len(svcs) + len(extra), calls: &calls, timeout: timeout, slow: tp.Choose(2)}
+			if tp.Bool(1, 3) {
+				s.outcome = outErr
+			}
+			extra = append(extra, s)
+		}
+	}
+	scripts := [][]os.Signal{script}
+	finals := []os.Signal{finalSig}
+	if nRounds == 2 {
+		var script2 []os.Signal
+		for n := tp.Choose(3); n > 0; n-- {
+			script2 = append(script2, otherSigs[tp.Choose(len(otherSigs))])
+		}
+		scripts = append(scripts, script2)
+		finals = append(finals, shutdownSigs[tp.Choose(3)])
+	}
+
+	// Scheduler-side state.  queue holds the signals that were enqueued and
+	// not yet accounted to a Handle call that has returned: a Handle call
+	// consumes signals up to and including the first shutdown signal.
+	var queue []os.Signal
+	queueHasShutdown := func() bool {
+		for _, sig := range queue {
+			if osutil.IsShutdownSignal(sig) {
+				return true
+			}
+		}
+
+		return false
+	}
+	round := 0 // Handle calls that have returned
+	justReturned := false
 	status := -1
+	registered := svcs
 
 	baseCtx, cancelBase := context.WithCancel(context.Background())
 	if preCancelled {
@@ -215,34 +252,47 @@ func runSignal(rc *kernel.RunCtx, k *kernel.Kernel) {
 	defer cancelBase()
 
 	handler := k.Go("handler", false, func() {
-		k.Yield("handle.start")
-		var st osutil.ExitCode
-		pv, stack := func() (pv any, stack string) {
-			defer func() {
-				if v := recover(); v != nil {
-					if kernel.IsAbort(v) {
-						panic(v)
-					}
-					pv, stack = v, string(debug.Stack())
+		for r := 0; r < nRounds; r++ {
+			if r > 0 {
+				var more []service.Interface
+				for _, s := range extra {
+					more = append(more, s)
 				}
+				h.Add(more...)
+				for i := range more {
+					more[i] = poison
+				}
+				k.Tell("handle.added", func() { registered = append(append([]*svc(nil), svcs...), extra...) })
+			}
+			k.Yield("handle.start")
+			var st osutil.ExitCode
+			pv, stack := func() (pv any, stack string) {
+				defer func() {
+					if v := recover(); v != nil {
+						if kernel.IsAbort(v) {
+							panic(v)
+						}
+						pv, stack = v, string(debug.Stack())
+					}
+				}()
+				st = h.Handle(baseCtx)
+
+				return nil, ""
 			}()
-			st = h.Handle(baseCtx)
+			if pv != nil {
+				k.Report("panic", kernel.PanicSite(stack), fmt.Sprintf("Handle panicked: %v\n%s", pv, stack))
 
-			return nil, ""
-		}()
-		if pv != nil {
-			k.Report("panic", kernel.PanicSite(stack), fmt.Sprintf("Handle panicked: %v\n%s", pv, stack))
-
-			return
+				return
+			}
+			k.Tell("handle.returned", func() {
+				justReturned = true
+				status = st
+				k.Logf("  Handle returned ", kernel.Itoa(st))
+			})
 		}
-		k.Tell("handle.returned", func() {
-			returned = true
-			status = st
-			k.Logf("  Handle returned ", kernel.Itoa(st))
-		})
 	})
 
-	send := func(sig os.Signal, shutdown bool) bool {
+	send := func(sig os.Signal) bool {
 		// signal.Notify never blocks: a full channel drops the signal.
 		select {
 		case nt.ch <- sig:
@@ -255,7 +305,7 @@ func runSignal(rc *kernel.RunCtx, k *kernel.Kernel) {
 		deliver := func(sig os.Signal) bool {
 			shutdown := osutil.IsShutdownSignal(sig)
 			k.Yield("signal.next")
-			ok := send(sig, shutdown)
+			ok := send(sig)
 			k.Tell("signal.sent", func() {
 				if !ok {
 					rc.Stats.Fault("signal-dropped-channel-full")
@@ -264,64 +314,81 @@ func runSignal(rc *kernel.RunCtx, k *kernel.Kernel) {
 					return
 				}
 				k.Logf("  signal ", sig.String(), " enqueued")
-				if shutdown {
-					shutdownEnqueued = true
-				} else {
+				queue = append(queue, sig)
+				if !shutdown {
 					rc.Stats.Fault("non-shutdown-signal")
 				}
 			})
 
 			return ok
 		}
-		for _, sig := range script {
-			deliver(sig)
-		}
-		// Faults stop: one shutdown signal is re-sent until it is enqueued
-		// (every attempt is a step, so a handler that is alive drains the
-		// one-slot channel in between) or Handle has returned.
-		for i := 0; i < 64; i++ {
-			if deliver(finalSig) {
-				break
+		for r := 0; r < nRounds; r++ {
+			r := r
+			for _, sig := range scripts[r] {
+				deliver(sig)
 			}
-			if k.Ask("signal.retry", func() any { return returned }).(bool) {
-				break
+			// Faults stop: one shutdown signal is re-sent until it is enqueued
+			// (every attempt is a step, so a handler that is alive drains the
+			// one-slot channel in between) or this round's Handle has returned.
+			for i := 0; i < 64; i++ {
+				if deliver(finals[r]) {
+					break
+				}
+				if k.Ask("signal.retry", func() any { return round > r }).(bool) {
+					break
+				}
 			}
+			k.YieldOpts(kernel.Opts{Site: "signals.round-done", Pred: func() bool { return round > r }})
 		}
 		k.YieldOpts(kernel.Opts{Site: "signals.done", Pred: func() bool { return false }})
 	})
 
+	checkRound := func() {
+		want := make([]int, 0, len(registered))
+		allNil := true
+		for i := len(registered) - 1; i >= 0; i-- {
+			want = append(want, i)
+			allNil = allNil && registered[i].outcome == outNil
+		}
+		if fmt.Sprint(calls) != fmt.Sprint(want) {
+			k.Fail("shutdown-sequence", "SignalHandler.Handle", fmt.Sprintf(
+				"Handle call #%d: Shutdown was called on services %v, want every registered service once in reverse order %v (outcomes: %s)",
+				round+1, calls, want, outcomes(registered)))
+		} else if status == osutil.ExitCodeSuccess && !allNil {
+			k.Fail("exit-status", "SignalHandler.Handle", fmt.Sprintf(
+				"Handle returned ExitCodeSuccess although not every service's Shutdown returned nil (outcomes: %s)", outcomes(registered)))
+		} else if status != osutil.ExitCodeSuccess && allNil {
+			// Only "success only if all returned nil" is stated.
+			rc.Stats.Probe("failure-status-although-all-nil")
+		}
+	}
 	k.AfterDrain = func() {
 		// Evaluated after all notes of a step: the signal's delivery and the
 		// handler's reaction to it can happen within one step.
-		if !shutdownEnqueued && len(calls) > 0 {
+		switch {
+		case !queueHasShutdown() && len(calls) > 0:
 			k.Fail("shutdown-before-signal", "SignalHandler.Handle", "a service was shut down before any shutdown signal was delivered")
-		} else if !shutdownEnqueued && returned {
+		case !queueHasShutdown() && justReturned:
 			k.Fail("returned-without-shutdown-signal", "SignalHandler.Handle", "Handle returned although no shutdown signal was delivered")
+		case justReturned:
+			checkRound()
+			for i, sig := range queue {
+				if osutil.IsShutdownSignal(sig) {
+					queue = append([]os.Signal(nil), queue[i+1:]...)
+
+					break
+				}
+			}
+			calls = calls[:0]
+			justReturned = false
+			round++
 		}
 	}
 
 	k.Run()
 
-	if !k.Failed() && k.HarnessErr == "" && k.Inconclusive == "" {
-		switch {
-		case shutdownEnqueued && !returned:
-			k.Fail("no-return", "SignalHandler.Handle", "a shutdown signal was delivered and no more events are pending, but Handle has not returned ("+taskState(handler)+")")
-		case returned:
-			want := make([]int, 0, nSvc)
-			for i := nSvc - 1; i >= 0; i-- {
-				want = append(want, i)
-			}
-			if fmt.Sprint(calls) != fmt.Sprint(want) {
-				k.Fail("shutdown-sequence", "SignalHandler.Handle", fmt.Sprintf(
-					"Shutdown was called on services %v, want every registered service once in reverse order %v (outcomes: %s)", calls, want, outcomes(svcs)))
-			} else if status == osutil.ExitCodeSuccess && !allNil {
-				k.Fail("exit-status", "SignalHandler.Handle", fmt.Sprintf(
-					"Handle returned ExitCodeSuccess although not every service's Shutdown returned nil (outcomes: %s)", outcomes(svcs)))
-			} else if status != osutil.ExitCodeSuccess && allNil {
-				// Only "success only if all returned nil" is stated.
-				rc.Stats.Probe("failure-status-although-all-nil")
-			}
-		}
+	if !k.Failed() && k.HarnessErr == "" && k.Inconclusive == "" && round < nRounds && queueHasShutdown() {
+		k.Fail("no-return", "SignalHandler.Handle", "a shutdown signal was delivered and no more events are pending, but Handle has not returned ("+taskState(handler)+")")
 	}
 	k.Finish()
 	rc.Adopt(k)
@@ -693,6 +760,9 @@ func runRefresh(rc *kernel.RunCtx, k *kernel.Kernel) {
 	maxTicks := tp.Range(0, 6)
 	shutdownAfter := tp.Choose(maxTicks + 1)
 	s.shutdownAfter = shutdownAfter
+	// The owner may call Shutdown again (a worker that is also registered in a
+	// SignalHandler); whatever that call does, it must not refresh.
+	shutdownTwice := tp.Bool(1, 4)
 	k.Logf("refresh: onShutdown=", btoa(s.onShutdown), " ticks=", kernel.Itoa(maxTicks), " shutdownAfter=", kernel.Itoa(shutdownAfter))
 
 	w := service.NewRefreshWorker(&service.RefreshWorkerConfig{
@@ -832,6 +902,20 @@ func runRefresh(rc *kernel.RunCtx, k *kernel.Kernel) {
 				s.fail("shutdown-error", "Shutdown did not return the final refresh's error")
 			}
 		})
+		if shutdownTwice {
+			func() {
+				defer func() {
+					if v := recover(); v != nil && kernel.IsAbort(v) {
+						panic(v)
+					}
+				}()
+				_ = w.Shutdown(s.shutdownCtx)
+			}()
+			k.Tell("shutdown.again", func() {
+				rc.Stats.Probe("shutdown-called-again")
+				k.Logf("  second Shutdown call over")
+			})
+		}
 		// After Shutdown the ticker fires every outstanding timer; the worker
 		// must stay silent (a refresh in flight may finish its iteration).
 		k.YieldOpts(kernel.Opts{
